@@ -677,7 +677,7 @@ fn record_component(r: &duke::tree::record::RecordComponent) -> Result<Sexp, Str
 
 fn module(m: &duke::tree::module::Module) -> Result<Sexp, String> {
 	let d = dbg::parse(&format!("{m:?}"))?;
-	let mflags: &[(&str, u16)] = &[("open", 0x0010), ("synthetic", 0x1000), ("mandated", 0x8000)];
+	let mflags: &[(&str, u16)] = &[("open", 0x0020), ("synthetic", 0x1000), ("mandated", 0x8000)];
 	let rflags: &[(&str, u16)] = &[("transitive", 0x0020), ("static_phase", 0x0040), ("static-phase", 0x0040), ("static", 0x0040), ("synthetic", 0x1000), ("mandated", 0x8000)];
 	let eflags: &[(&str, u16)] = &[("synthetic", 0x1000), ("mandated", 0x8000)];
 	let exports = |x: &Dbg, to: &str| -> Result<Sexp, String> {
